@@ -71,6 +71,7 @@ class Log:
 
 LOG = None
 WORLD = None
+PREVIOUS_RUNNER = [None]
 
 
 # ------------------------------------------------------------------------------ failure kinds
@@ -88,6 +89,7 @@ def make_exception(kind):
     table = {
         "LookupError": lambda: LookupError("lookup failed"),
         "ValueError": lambda: ValueError("bad value"),
+        "TypeError": lambda: TypeError("payload() got an unexpected argument"),
         "KeyError": lambda: KeyError("k"),
         "CustomWithArgs": lambda: CustomWithArgs(7, "detail"),
         "StopIteration": lambda: StopIteration("stop"),
@@ -165,7 +167,9 @@ class World:
     def __init__(self, gen_spec, gen_index):
         self.spec = gen_spec
         self.gen = gen_index
-        if gen_spec.get("mode") == "meta":
+        if gen_spec.get("reuse_runner") and PREVIOUS_RUNNER[0] is not None:
+            self.runner = PREVIOUS_RUNNER[0]  # the same runner instance runs once more
+        elif gen_spec.get("mode") == "meta":
             self.runner = MetaAdapter()
         else:
             self.runner = ServiceRunner(accept_delay=gen_spec.get("accept_delay", 0.05))
@@ -259,9 +263,10 @@ def do_execute(world, child_id, by):
 
 def do_service(world, sid, by):
     sspec = world.services[sid]
-    cls = service_class(world, sspec)
+    cls = service_class(sspec["flavour"])
     LOG("call", op="service", pid="svc:%s" % sid, by=by, gen=world.gen)
     inst = cls()
+    SERVICE_SPECS[id(inst)] = (world, dict(sspec, id="svc:%s" % sid))
     world.instances[sid] = inst
     LOG("return", op="service", pid="svc:%s" % sid, by=by, gen=world.gen)
 
@@ -276,22 +281,41 @@ def do_shutdown(world, by):
     LOG("return", op="shutdown", by=by, gen=world.gen)
 
 
-def service_class(world, sspec):
-    """A fresh service class per instance, without __init__: the ServiceUnit is registered in
-    __new__, i.e. before __init__ has run, and the accept loop may start run() in between (a
-    race of its own, probed by the C13 check) - the harness must not depend on it."""
-    flavour = sspec["flavour"]
-    bound = dict(sspec, id="svc:%s" % sspec["id"])
+SERVICE_CLASSES = {}
+SERVICE_SPECS = {}  # id(instance) -> (world, spec); filled right after construction
+
+
+def service_class(flavour):
+    """One service class per flavour, shared by all instances and generations (several pending
+    instances of one class are a case of their own), and without __init__: the ServiceUnit is
+    registered in __new__, i.e. before __init__ has run, and the accept loop may start run() in
+    between (a race of its own, probed by the C13 check) - the harness must not depend on it.
+    run() therefore waits until the harness has filed the instance's spec."""
+    if flavour in SERVICE_CLASSES:
+        return SERVICE_CLASSES[flavour]
     if flavour == "threading":
         class Svc(object):
             def run(self):
+                for _ in range(4000):
+                    if id(self) in SERVICE_SPECS:
+                        break
+                    time.sleep(0.0005)
+                world, bound = SERVICE_SPECS[id(self)]
                 return run_sync(world, bound, (), {})
     else:
+        lib = asyncio if flavour == "asyncio" else trio
+
         class Svc(object):
             async def run(self):
+                for _ in range(4000):
+                    if id(self) in SERVICE_SPECS:
+                        break
+                    await lib.sleep(0.0005)
+                world, bound = SERVICE_SPECS[id(self)]
                 return await run_async(world, bound, (), {})
     Svc.__name__ = Svc.__qualname__ = "Svc_%s" % flavour
-    return service(flavour=FLAVOURS[flavour])(Svc)
+    SERVICE_CLASSES[flavour] = service(flavour=FLAVOURS[flavour])(Svc)
+    return SERVICE_CLASSES[flavour]
 
 
 # ------------------------------------------------------------------------------ payload programs
@@ -339,8 +363,21 @@ def common_op(world, pspec, op):
                 x += i
             world.overlap[flavour] -= 1
             LOG("crit", pid=pid, gen=world.gen, entered_with=seen, **context_facts())
+    elif kind == "crit_adopt":
+        flavour = pspec["flavour"]
+        if flavour in world.overlap:
+            seen = world.overlap[flavour]
+            world.overlap[flavour] = seen + 1
+            do_adopt(world, op[1], by=pid)  # no checkpoint: the adoptee must not start before we leave
+            x = 0
+            for i in range(op[2]):
+                x += i
+            world.overlap[flavour] -= 1
+            LOG("crit", pid=pid, gen=world.gen, entered_with=seen, **context_facts())
+        else:
+            do_adopt(world, op[1], by=pid)
     elif kind == "ctx":
-        LOG("step", pid=pid, gen=world.gen, **context_facts())
+        LOG("step", pid=pid, gen=world.gen, inside_section=world.overlap.get(pspec["flavour"], 0), **context_facts())
     else:
         return False
     return True
@@ -351,7 +388,7 @@ async def run_async(world, pspec, args, kwargs):
     lib = asyncio if flavour == "asyncio" else trio
     cancel_exc = asyncio.CancelledError if flavour == "asyncio" else trio.Cancelled
     LOG("start", pid=pid, gen=world.gen, flavour=flavour, args_ok=args_ok(world, pid, args, kwargs),
-        nargs=len(args), kwkeys=sorted(kwargs), **context_facts())
+        nargs=len(args), kwkeys=sorted(kwargs), inside_section=world.overlap.get(flavour, 0), **context_facts())
     cleanup = pspec.get("cleanup", {"kind": "none"})
     try:
         try:
@@ -373,6 +410,19 @@ async def run_async(world, pspec, args, kwargs):
                         if n % 200 == 0:
                             LOG("step", pid=pid, gen=world.gen, n=n, **context_facts())
                         n += 1
+                        await lib.sleep(0)
+                elif kind == "dispatch":
+                    # a dispatcher: adopts one short-lived worker per loop turn (op: flavour, count)
+                    for i in range(op[2]):
+                        cid = "%s.w%d" % (pid, i)
+                        child = {"id": cid, "flavour": op[1], "program": [["sleep", 0.01]], "cleanup": {"kind": "none"}}
+                        world.payloads[cid] = child
+                        world.args[cid] = ((), {})
+                        try:
+                            world.runner.adopt(make_payload(world, child), flavour=FLAVOURS[op[1]])
+                        except Exception as err:  # noqa: B902 - judged by C03, not here
+                            LOG("raised", op="adopt", pid=cid, by=pid, gen=world.gen, exc=type(err).__name__, msg=str(err)[:100])
+                            break
                         await lib.sleep(0)
                 elif kind == "block":
                     while True:
@@ -456,6 +506,17 @@ def run_sync(world, pspec, args, kwargs):
 
 
 def make_payload(world, pspec):
+    if pspec.get("call_raises"):
+        def payload(*args, **kwargs):
+            exc = make_exception(pspec["call_raises"])
+            world.raised[pspec["id"]] = exc
+            LOG("start", pid=pspec["id"], gen=world.gen, flavour=pspec["flavour"], args_ok=True, nargs=len(args), kwkeys=sorted(kwargs),
+                **context_facts())
+            LOG("fail", pid=pspec["id"], gen=world.gen, how="raise", what=pspec["call_raises"], at="call")
+            raise exc
+
+        payload.__name__ = payload.__qualname__ = "payload_%s" % pspec["id"]
+        return payload
     if pspec["flavour"] == "threading":
         def payload(*args, **kwargs):
             return run_sync(world, pspec, args, kwargs)
@@ -518,7 +579,9 @@ def play(world, ops, by):
                 gc.collect()
             elif kind == "drop_service":
                 LOG("call", op="drop_service", pid="svc:%s" % op[1], by=by, gen=world.gen)
-                world.instances.pop(op[1], None)
+                gone = world.instances.pop(op[1], None)
+                SERVICE_SPECS.pop(id(gone), None)
+                del gone
                 gc.collect()
             elif kind == "thread":
                 t = threading.Thread(target=play, args=(world, op[1], "%s/helper%d" % (by, id(op) % 1000)), daemon=True)
@@ -557,7 +620,8 @@ def run_generation(gen_spec, index):
     global WORLD
     gc.collect()
     world = WORLD = World(gen_spec, index)
-    LOG("generation", gen=index)
+    PREVIOUS_RUNNER[0] = world.runner
+    LOG("generation", gen=index, reused_runner=bool(gen_spec.get("reuse_runner")))
     for p in gen_spec.get("payloads", []):
         if p.get("when") == "queued":
             do_adopt(world, p["id"], by="main-before-accept")
